@@ -435,7 +435,8 @@ def A4(ctx: Ctx) -> RuleResult:
     # FunctionDefinition.result = union of overload results
     fd = m.cls('FunctionDefinition', 'A4')
     fi = fd.resolve('result')
-    outs = ctx.ev.run(fi, {'self': Sym('self', 'FunctionDefinition')})
+    # DataType.union itself is rule L4's business: keep it as a call here
+    outs = Evaluator(ctx.model, inline=lambda f, d: not (f.cls is not None and f.cls.name == 'DataType') and ctx.ev.inline(f, d)).run(fi, {'self': Sym('self', 'FunctionDefinition')})
     ok = False
     if len(outs) == 1 and outs[0].kind == 'return':
         v = outs[0].value
